@@ -1745,9 +1745,8 @@ def _(a):
         and loop.body[1] is a.ghost.ir.body[0].body[0] and scope_report(ir).ok()
 
 
-# (2) concrete witnesses (bounded): everything runs for real, including the checks.  Both halves of F23 are covered:
-#     the violated callee assertion (repaired by re-running CheckBounds on the result) and the window argument outside
-#     its buffer (rejected since CheckBounds checks window extents at call sites, /repo d87d78e8)
+# (2) concrete witnesses (bounded): everything runs for real, including the checks.  Both halves of F23: a violated
+#     callee assertion and a window argument outside its buffer.
 cnb = contract("C04", FS, "DoInsertNoopCall", name=FS + "::DoInsertNoopCall[instances]", kind="bounded")
 cnb.native_modules.update(NATIVE + ("exo.frontend.typecheck", "exo.frontend.boundscheck"))
 cnb.native("CheckBounds.__init__")
@@ -1780,3 +1779,49 @@ def _(a):
 
 cnb.raises(SchedulingError, when=lambda a: a.ghost.hint >= 8 or a.ghost.off != 0,
            label="SchedulingError only for a violated assertion or an out-of-bounds window")
+
+
+# F23 is a KNOWN FINDING (known_findings.json).  Re-running CheckBounds on the result repairs the assertion half, but
+# together with the F8 repair (CheckBounds checks a window's extent where it is used / passed) it makes
+# tests/test_schedules.py::test_insert_noop_call fail: that test inserts prefetch(x[1:2], ..) with x: i8[n], n >= 1.
+# The three witness classes below are exactly the three refuted clauses; a violation of any OTHER kind (the check made
+# on a stale procedure, more than one call inserted, a rejected valid call ...) is not matched and is reported.
+
+def _f23_concrete(c, values, choices):
+    from pyvc.sym import ConcreteCtx
+    from pyvc.run import G
+    ctx = ConcreteCtx(values=values, choices=choices)
+    old = S.set_ctx(ctx)
+    try:
+        g = G(ctx)
+        return g, c.gen(g)
+    finally:
+        S.set_ctx(old)
+
+
+def f23_no_call_site_check(c, values, choices):
+    """DoInsertNoopCall makes NO call-site check at all (not: a check on the wrong procedure)"""
+    from pyvc.sym import ConcreteCtx
+    from pyvc.run import G
+    ctx = ConcreteCtx(values=values, choices=choices)
+    old = S.set_ctx(ctx)
+    try:
+        g = G(ctx)
+        argd = c.gen(g)
+        a = type("A", (), {k: v for k, v in argd.items() if k != "__ghost__"})()
+        _native_noop(g, LS.DoInsertNoopCall, a)
+        return not events(g).calls("CheckBounds")
+    finally:
+        S.set_ctx(old)
+
+
+def f23_assertion_violated(c, values, choices):
+    """the accepted call violates the callee's assertion and nothing else is wrong with the instance"""
+    _, argd = _f23_concrete(c, values, choices)
+    return argd["__ghost__"]["hint"] >= 8
+
+
+def f23_window_out_of_bounds(c, values, choices):
+    """the accepted call passes a window outside its buffer"""
+    _, argd = _f23_concrete(c, values, choices)
+    return argd["__ghost__"]["off"] != 0
